@@ -20,6 +20,14 @@ together with the state of the harness-owned random source.  Then
      only classified, not judged.)  The run with periodic dumps must equal the run without.
  (D) restore of a restore: two crash points k1 < k2 (all pairs), chains of two transfers.
  (Z) configurations with limits: after the restore both original and copy run Solve() to the stop and must agree.
+ (L) LoggingMonitor configurations: the original dies at k, one restored solver continues; the record lines of the
+     log file must be those of the uninterrupted run (comment lines ignored).
+ (H) histories: two configurations reconfigure the run between two Steps (SetPenalty + new evaluation / generation
+     monitors; SetStrictRanges + SetEvaluationLimits(new=True)), so crash points also fall on a solver whose
+     objective is not live and whose monitors were swapped; the same reconfiguration is applied to whichever
+     object (original or restored) crosses that boundary.
+ Thorough adds n=12, more costs / dims / seeds, Verbose- and Logging- evaluation monitors, a symbolic constraint, a
+ reducer, SaveSolver() with the solver-chosen file + LoadSolver(_state=...), all 7 double chains on the core configurations.
 
 Independent oracle = confluence (no expected values are written down): two histories the property declares
 equivalent must reach the same canonical state.
@@ -50,13 +58,13 @@ CONFIGS = {
     'reconf_box_lim': {'constraint': 'clamp/pure', 'midrun': {'at': 2, 'ops': [['SetStrictRanges', 'unit', True, None], ['SetEvaluationLimits', 3, None, True]]}},
     'reducer': {'cost': 'vec', 'reducer': 'sum', 'penalty': 'ramp'},
 }
-QUICK_PLAN = [('plain', 'sphere'), ('plain', 'steps'), ('plain', 'rosen'),
-              ('box_con_pen', 'sphere'), ('box_con_pen', 'steps'), ('box_con_pen_inplace', 'sphere'),
+QUICK_PLAN = [('plain', 'sphere'), ('plain', 'rosen'), ('box_con_pen', 'steps'),
               ('tight', 'sphere'), ('clip', 'sphere'), ('clip_random', 'sphere'),
               ('monitors', 'sphere'), ('logging', 'sphere'), ('limit_gen', 'sphere'), ('limit_eval', 'sphere'),
               ('reconf_pen_mon', 'sphere'), ('reconf_box_lim', 'sphere')]
 THOROUGH_COSTS = ['sphere', 'steps', 'rosen', 'absum', 'infwall']
-THOROUGH_CORE = ('plain', 'box_con_pen', 'monitors', 'limit_gen')     # all costs, all double chains; the rest: 2 costs, 4 chains
+THOROUGH_CORE = ('plain', 'box_con_pen', 'monitors', 'limit_gen')     # 5 / 5 / 3 / 3 costs, all 7 double chains; the rest: 1-2 costs, 3 chains
+THOROUGH_TWO_COSTS = ('tight', 'clip', 'clip_random', 'symbolic', 'box_con_pen_inplace', 'limit_eval')
 
 SINGLE = ['dill.dumps/dill.loads', 'dill.copy', 'copy.deepcopy', 'SaveSolver/LoadSolver', 'SaveSolver/dill.load']
 SINGLE_THOROUGH = ['SaveSolver()/LoadSolver(_state=)'] + SINGLE     # file name chosen by the solver, restored by keyword
@@ -430,6 +438,63 @@ def run_solve(b, k, kinds, T):
         sink.outcome('solve', name, problems)
 
 
+# ------------------------------------------------------------------ (L) the file of a LoggingMonitor
+def _logfiles(solver):
+    out = {}
+    for tag, m in (('stepmon', solver._stepmon), ('evalmon', solver._evalmon)):
+        fn = getattr(m, '_filename', None)
+        if isinstance(fn, str):
+            out[tag] = fn
+    return out
+
+
+def _datalines(path):
+    with open(path) as fh:
+        return [l.rstrip() for l in fh if l.strip() and not l.lstrip().startswith('#')]
+
+
+def run_logfile(b, k, kinds, T):
+    """crash semantics for a LoggingMonitor: the original dies at boundary k, ONE restored solver continues to n; the
+    record lines of the log file(s) must be those of the uninterrupted run (comment lines - dates, DUMPED/LOADED/STOP - ignored)"""
+    sink = Sink(T, b)
+    if not hasattr(b, 'reflog'):
+        sub = tempfile.mkdtemp(dir=b.tmp)
+        lab = solverlab.Lab(b.labcfg, sub)
+        for i in range(b.n):
+            b.advance(lab, lab.solver, i + 1)
+        b.reflog = {tag: _datalines(fn) for tag, fn in _logfiles(lab.solver).items()}
+        T.hist('logfile_record_lines_of_reference_run', sum(len(v) for v in b.reflog.values()))
+    for name in kinds:
+        sub = tempfile.mkdtemp(dir=b.tmp)
+        lab = solverlab.Lab(b.labcfg, sub)
+        for i in range(k):
+            b.advance(lab, lab.solver, i + 1)
+        st = lab.rng.getstate()
+        files = _logfiles(lab.solver)
+        case = {'k': k, 'transfer': name}
+        T.count('traces'); T.count('transitions', 1 + b.n)
+        try:
+            R = b.transfer(lab, lab.solver, name, {})
+            lab.rng.setstate(st)
+            for s in range(1, b.n - k + 1):
+                b.advance(lab, R, k + s)
+        except Exception:
+            continue            # reported by run_single
+        bad = []
+        for tag, fn in files.items():
+            got = _datalines(fn)
+            want = b.reflog.get(tag)
+            if got != want:
+                i = next((j for j, (x, y) in enumerate(zip(got, want)) if x != y), min(len(got), len(want)))
+                bad.append('%s log file has %d record lines, the uninterrupted run %d; first difference at line %d: %r vs %r'
+                           % (tag, len(got), len(want), i, got[i] if i < len(got) else None, want[i] if i < len(want) else None))
+        if bad:
+            sink.emit('logfile', name, 'logfile_differs', 'logfile', 'crash at boundary %d, restored, continued to %d: %s' % (k, b.n, '; '.join(bad)), case)
+        else:
+            T.nontriv(('L', sorted(b.cfg.items(), key=str), k, name))
+        sink.outcome('logfile', name, [('logfile_differs',)] if bad else [])
+
+
 # ------------------------------------------------------------------ (P) periodic dumps
 def run_periodic(b, f, restores, T, only_j=None):
     import dill
@@ -585,9 +650,64 @@ def run_double(b, k1, first, seconds, T, only_k2=None):
 
 
 # ------------------------------------------------------------------ shard / run / replay
+def _trace(text):
+    path = os.environ.get('C06_TRACE')       # development aid: which shard a worker was in
+    if path:
+        with open(path, 'a') as fh:
+            fh.write('%d %s\n' % (os.getpid(), text))
+
+
 def shard(item):
+    """run one configuration in a forked child, so that an interpreter crash (seen once: a segfault inside libpython
+    while thousands of closures were being un/pickled) cannot take a pool worker - and with it the whole run - down;
+    a crashed shard is retried once, a second crash is reported as a harness fault"""
+    import pickle, signal
+    if os.environ.get('C06_INPROC'):
+        return _shard(item)
+    last = None
+    for attempt in (1, 2):
+        r, w = os.pipe()
+        pid = os.fork()
+        if pid == 0:
+            code = 0
+            try:
+                os.close(r)
+                signal.alarm(900)        # a shard takes seconds; a hang (runaway library loop) must not hang the run
+                try:
+                    T = _shard(item)
+                except BaseException:
+                    T = Tally()
+                    T.notes.append('HARNESS-FAULT in shard %r:\n%s' % (repr(item[0])[:300], traceback.format_exc()))
+                    T.count('harness_faults')
+                with os.fdopen(w, 'wb') as fh:
+                    fh.write(pickle.dumps(T, protocol=pickle.HIGHEST_PROTOCOL))
+            except BaseException:
+                code = 3
+            finally:
+                os._exit(code)
+        os.close(w)
+        with os.fdopen(r, 'rb') as fh:
+            data = fh.read()
+        _, status = os.waitpid(pid, 0)
+        if os.WIFEXITED(status) and os.WEXITSTATUS(status) == 0 and data:
+            T = pickle.loads(data)
+            if attempt == 2:
+                T.hist('shards_retried_after_interpreter_crash', last)
+            return T
+        last = 'signal %d' % os.WTERMSIG(status) if os.WIFSIGNALED(status) else 'exit status %d' % os.WEXITSTATUS(status)
+        if os.WIFSIGNALED(status) and os.WTERMSIG(status) == signal.SIGALRM:
+            last += ' (no result within 900 s)'
+            break
+    T = Tally()
+    T.notes.append('HARNESS-FAULT: the child process running shard %r died (%s)' % (repr(item[0])[:300], last))
+    T.count('harness_faults')
+    return T
+
+
+def _shard(item):
     cfg, n, plan = item
     T = Tally()
+    _trace('start %s/%s/%s/dim%d/seed%d' % (cfg['solver'], cfg['conf'], cfg['cost'], cfg['dim'], cfg['seed']))
     tmp = tempfile.mkdtemp(prefix='c06_')
     b = None
     try:
@@ -601,6 +721,8 @@ def shard(item):
             run_single(b, k, plan['single'], T)
             if cfg.get('limits') is not None:
                 run_solve(b, k, ['SaveSolver/LoadSolver', 'dill.dumps/dill.loads', 'dill.copy'], T)
+            if 'Logging' in (cfg.get('stepmon'), cfg.get('evalmon')) and k > 0:
+                run_logfile(b, k, ['SaveSolver/LoadSolver', 'dill.dumps/dill.loads'], T)
         for f in (sorted(plan['periodic']) if not b.midrun else ()):      # (periodic dumps are exercised on unreconfigured runs)
             run_periodic(b, f, plan['periodic'][f], T)
         for k1 in range(n - 1):
@@ -609,6 +731,7 @@ def shard(item):
         T.sample({'cfg': cfg, 'n': n, 'mode': 'single', 'k': n // 2, 'transfer': 'SaveSolver/LoadSolver'})
     finally:
         _cleanup(tmp, b)
+    _trace('end   %s/%s/%s/dim%d/seed%d' % (cfg['solver'], cfg['conf'], cfg['cost'], cfg['dim'], cfg['seed']))
     return T
 
 
@@ -635,11 +758,13 @@ def plan_of(ctx):
         for solver in solverlab.SOLVERS:
             for conf in CONFIGS:
                 core = conf in THOROUGH_CORE
-                costs = ['vec'] if conf == 'reducer' else (THOROUGH_COSTS if core else ['sphere', 'rosen'])
+                costs = ['vec'] if conf == 'reducer' else (THOROUGH_COSTS if conf in ('plain', 'box_con_pen') else
+                                                         (THOROUGH_COSTS[:3] if core else (['sphere', 'rosen'] if conf in THOROUGH_TWO_COSTS else ['sphere'])))
                 for cost in costs:
                     dims = (2, 3) if conf in ('plain', 'box_con_pen') and cost in ('sphere', 'rosen') else (2,)
                     for dim in dims:
-                        seeds = (ctx.seed, ctx.seed + 1) if conf in ('plain', 'box_con_pen', 'clip_random') and cost == 'sphere' and dim == 2 else (ctx.seed,)
+                        draws = solver.startswith('DE') or conf == 'clip_random'      # NM / Powell draw nothing otherwise
+                        seeds = (ctx.seed, ctx.seed + 1) if draws and conf in ('plain', 'box_con_pen', 'clip_random') and cost == 'sphere' and dim == 2 else (ctx.seed,)
                         for seed in seeds:
                             items.append((make_cfg(solver, conf, cost, dim, seed), n, plan if core else lean))
     heavy = {'Powell': 0, 'DE2': 1, 'DE': 2, 'NM': 3}
@@ -670,7 +795,7 @@ def run(ctx):
                        'restart files are whole (not torn): the property does not speak of partial files']
     ctx.explanation = ('violations carry sig = {solver, save, restore, clause, what}; clause in restored_state_differs / continuation_diverges / '
                        'evaluations_not_own_calls / original_changed_by_copy / copy_changed_by_original / original_changed_by_transfer / '
-                       'continue_raised / transfer_raised / dumping_perturbs_run; what = observable (a field the statement names) or internal')
+                       'continue_raised / transfer_raised / dumping_perturbs_run / logfile_differs; what = observable (a field the statement names) or internal')
     ctx.pmap(shard, items)
 
 
@@ -689,6 +814,8 @@ def replay(case):
                 run_single(b, case['k'], kinds, T, shallow=False)
         elif mode == 'solve':
             run_solve(b, case['k'], [case['transfer']], T)
+        elif mode == 'logfile':
+            run_logfile(b, case['k'], [case['transfer']], T)
         elif mode == 'periodic':
             run_periodic(b, case['f'], [case['restore']] if 'restore' in case else PERIODIC_FULL[case['f']], T, only_j=case.get('dump_step'))
         elif mode == 'double':
